@@ -304,12 +304,18 @@ type execOut struct {
 	end      bool // input ended inside COPY
 }
 
-func rowEncodable(cols []ColSpec, row []Val) bool {
+func rowEncodable(cols []ColSpec, row []Val, rfmt []int16) bool {
 	if len(row) != len(cols) {
 		return false
 	}
-	for _, v := range row {
+	fm, _ := resolveFormats(rfmt, len(cols))
+	for i, v := range row {
 		if v.G == "chan" {
+			return false
+		}
+		// a Go string holding the text form of a non-text value is accepted for
+		// the text format only (classification verified against pgtype at start-up)
+		if v.G == "strtext" && fm[i] == 1 && pgwire.KindOf(cols[i].OID) != "text" {
 			return false
 		}
 	}
@@ -350,7 +356,7 @@ func (m *Model) runStmt(key string, idx int, sp *StmtProg, params []pgwire.Param
 		switch op.K {
 		case "row":
 			res := "err"
-			if !closed && rowEncodable(sp.Cols, op.Row) {
+			if !closed && rowEncodable(sp.Cols, op.Row, rfmt) {
 				res = "ok"
 				written++
 				o.exp = append(o.exp, expDataRow(sp.Cols, rfmt, op.Row))
@@ -486,6 +492,7 @@ func (m *Model) runStmt(key string, idx int, sp *StmtProg, params []pgwire.Param
 			o.ev = append(o.ev, fmt.Sprintf("op %d params n=%d%s", oi, len(params), sb.String()))
 		case "scan":
 			var sb strings.Builder
+			wildcard := false
 			for i, p := range params {
 				var oidv uint32
 				if i < len(op.OIDs) {
@@ -497,6 +504,11 @@ func (m *Model) runStmt(key string, idx int, sp *StmtProg, params []pgwire.Param
 					fmt.Fprintf(&sb, " [%d NULL]", i)
 					continue
 				}
+				if oidv == pgwire.OIDBytea && pfmt[i] == 0 && !strings.HasPrefix(string(p.V), `\x`) {
+					// escape-format bytea text: valid PostgreSQL input that the type
+					// library does not read; not judged
+					wildcard = true
+				}
 				v, err := pgwire.Decode(oidv, pfmt[i], p.V)
 				if err != nil {
 					fmt.Fprintf(&sb, " [%d err]", i)
@@ -504,7 +516,11 @@ func (m *Model) runStmt(key string, idx int, sp *StmtProg, params []pgwire.Param
 				}
 				fmt.Fprintf(&sb, " [%d %s]", i, v.String())
 			}
-			o.ev = append(o.ev, fmt.Sprintf("op %d scan%s", oi, sb.String()))
+			if wildcard {
+				o.ev = append(o.ev, fmt.Sprintf("op %d scan *", oi))
+			} else {
+				o.ev = append(o.ev, fmt.Sprintf("op %d scan%s", oi, sb.String()))
+			}
 		case "retain", "ctx":
 		case "yield":
 			o.ev = append(o.ev, fmt.Sprintf("op %d yield", oi))
